@@ -19,6 +19,9 @@ def cases(tier):
     for wa in (1, 2, 3, 5):
         for k in (0, 1, 2, 5, 13, 0xb5, 0xdead, 0xbad, 0xd):
             cs.append(('ops.operand_kinds', dict(wa=wa, k=k)))
+    # int operands of 49..65 bits around powers of two (width inference must be exact, no floating point)
+    for k in ((1 << 49) - 1, (1 << 53) - 1, (1 << 53) + 1, (1 << 56) - 2, (1 << 63) - 1, 1 << 63, (1 << 64) - 1, 1 << 64):
+        cs.append(('ops.operand_kinds', dict(wa=3, k=k)))
     for w in range(1, 8 if tier == 'quick' else 11):
         for wb in (1, 3):
             cs.append(('ops.slices', dict(w=w, wb=wb)))
